@@ -8,6 +8,21 @@ VERIF = os.path.dirname(os.path.dirname(os.path.abspath(__file__)))
 
 # property -> (technique, clause decided, trusted base / what is not decided, DESIGN ref)
 CLAIMS = {
+    "C24": ("non-null dataflow over the CFG at every regex::match call (with container invariants) + must-pass-through "
+            "gate rule in the suppression parser + vocabulary table (property names vs validator suffix)",
+            "no null compiled regex reaches regex::match; every section reader is dominated by the validator that "
+            "rejects a section with an uncompilable *_regexp; all regex-carrying property names end in that suffix; "
+            "parameter '/regex/ specs are compiled before acceptance",
+            "insertion-range arithmetic (has_data_member_inserted_*) and name matching itself are runtime",
+            "§3 R-RXNULL, R-RXPRES (now R-RXVALID); §4 C24"),
+    "C25": ("non-null dataflow (nullable-producer table, check-then-recompute and ABG_ASSERT idioms), class-invariant "
+            "rule over constructors/stores, size-fact dataflow for constant subscripts, assertion classification",
+            "no null regex reaches regex::match; results of the INI parser's nullable producers are checked before "
+            "every dereference; every property object always holds a value; constant subscripts / front / back are "
+            "dominated by a size fact; no assertion on a nullable producer result without a dominating check",
+            "hangs and memory errors outside these classes; the INI reader's peek/read consistency assertions are "
+            "treated as internal",
+            "§3 R-RXNULL, R-NULLABLE, R-IDX, R-INASSERT; §4 C25"),
     "C32": ("lockset / typestate dataflow over the CFGs of abg-workers.cc (must/may held sets), path exploration with "
             "correlated-branch pruning, waiter/mutation table derived from the loop conditions",
             "lock/unlock pairing on all paths, every guarded field accessed under its mutex, every cond_wait in a "
